@@ -356,9 +356,10 @@ BOX_MISMATCH_PROPS = {
 def multi_run(fns):
     """one run made of several engines' runs (reports keep their engine name)"""
     def run(tier, seed, extra_tag=""):
-        out = {"reports": [], "summaries": [], "wall_s": 0, "cached": True}
+        out = {"reports": [], "summaries": [], "wall_s": 0, "cached": True, "xc": []}
         for fn in fns:
             r = fn(tier, seed, extra_tag=extra_tag)
+            out["xc"] += r.get("xc", [])
             out["reports"] += r["reports"]
             out["summaries"] += r["summaries"]
             out["wall_s"] += r.get("wall_s", 0)
@@ -428,8 +429,10 @@ def borrow_run(tier, seed, extra_tag=""):
         open(trace, "a").close()
     with open(trace) as tf, open(rep, "w") as rf:
         subprocess.run([os.path.join(OCAML_BUILD, "borrow_check")], stdin=tf, stdout=rf, timeout=1800)
-    reports, summaries = [], []
+    reports, summaries, xc = [], [], []
     for line in open(rep).read().split("\n"):
+        if line.startswith("XC ") and len(xc) < 400:
+            xc.append(line[3:])
         if line.startswith("MISMATCH") or line.startswith("SPEC"):
             reports.append({"mode": "debug", "trace": trace, "line": line, "engine": "borrow", "seed": 0, "maxops": maxlen})
         elif line.startswith("SUMMARY"):
@@ -441,7 +444,7 @@ def borrow_run(tier, seed, extra_tag=""):
         reports.append({"mode": "debug", "trace": trace, "seed": 0, "maxops": maxlen, "engine": "borrow",
                         "line": "MISMATCH hid=? op=0 who=borrowmodel field=accepts model=? impl=%s desc=[?] hdr=[?]" % status})
     out = {"key": key, "tier": tier, "seed": seed, "wall_s": time.time() - t0, "reports": reports,
-           "summaries": summaries, "cached": False, "outdir": outdir}
+           "summaries": summaries, "cached": False, "outdir": outdir, "xc": xc}
     with open(cpath, "w") as f:
         json.dump(out, f)
     return out
@@ -503,7 +506,7 @@ def engine_run(name, tiers, shard_fn, crash_prop, tier, seed, extra_tag=""):
             for i in range(shards):
                 jobs.append(ex.submit(shard_fn, mode, seed, count, maxops, i * count, outdir, "s%d" % i))
         results = [j.result() for j in jobs]
-    reports, summaries = [], []
+    reports, summaries, xc = [], [], []
     for r in results:
         for line in r["lines"]:
             if line.startswith("MISMATCH") or line.startswith("SPEC"):
@@ -514,14 +517,47 @@ def engine_run(name, tiers, shard_fn, crash_prop, tier, seed, extra_tag=""):
                     summaries.append(json.loads(line[len("SUMMARY "):]))
                 except Exception:
                     pass
+            elif line.startswith("XC ") and len(xc) < 400:
+                xc.append(line[3:])
         if r["status"] != "ok":
             reports.append({"mode": r["mode"], "trace": r["trace"], "seed": r["seed"], "maxops": r["maxops"], "engine": name,
                             "line": "SPEC hid=? op=0 prop=%s pred=driver_%s detail=driver_status desc=[?] hdr=[?]" % (crash_prop, r["status"])})
     out = {"key": key, "tier": tier, "seed": seed, "wall_s": time.time() - t0, "reports": reports,
-           "summaries": summaries, "cached": False, "outdir": outdir}
+           "summaries": summaries, "cached": False, "outdir": outdir, "xc": xc}
     with open(cpath, "w") as f:
         json.dump(out, f)
     return out
+
+
+def xcheck(prop, samples):
+    """re-evaluate sampled model calls inside Coq (vm_compute): independent of extraction and of the OCaml glue"""
+    if not samples:
+        return {"ok": True, "n": 0, "log": ""}
+    d = os.path.join(BUILD, "xcheck")
+    os.makedirs(d, exist_ok=True)
+    path = os.path.join(d, "X%s.v" % prop)
+    body = ["From BV Require Import Word ArenaModel ArenaPolicy VecModel Utf8 Utf8Lossy LossyTableActual Borrow SigFactsActual.",
+            "From Coq Require Import NArith List. Import ListNotations. Open Scope N_scope."]
+    n = 0
+    for sline in samples:
+        if " === " not in sline:
+            continue
+        lhs, rhs = sline.split(" === ", 1)
+        if "SAlloc" in lhs or "accepts" in lhs:
+            lhs = "(%s)%%nat" % lhs if False else lhs
+            body.append("Goal (let f := fun (x : nat) => x in %s) = %s. Proof. vm_compute. reflexivity. Qed." % (nat_scope(lhs), rhs))
+        else:
+            body.append("Goal (%s) = (%s). Proof. vm_compute. reflexivity. Qed." % (lhs, rhs))
+        n += 1
+    with open(path, "w") as f:
+        f.write("\n".join(body) + "\n")
+    rc, out = sh(["coqc", "-Q", COQ, "BV", path], cwd=d, timeout=1200)
+    return {"ok": rc == 0, "n": n, "log": out[-800:]}
+
+
+def nat_scope(term):
+    """statement arguments of the borrow language are nat: print numerals in nat scope"""
+    return re.sub(r"\b(SAlloc|SUse|SIterBegin|SIterUse|SSpawnRef) (\d+)", r"\1 \2%nat", term)
 
 
 def parse_report(line):
